@@ -98,6 +98,33 @@ func c02Run(sc c02Sc, split int) (c02Out, []string) {
 				mu.Unlock()
 			}
 		case "none":
+		case "reset":
+			ctx.Request.ResetBody()
+		case "closestream":
+			ctx.Request.CloseBodyStream() //nolint:errcheck
+		case "setbody":
+			ctx.Request.SetBody([]byte("rewritten"))
+		case "hdrcl":
+			ctx.Request.Header.SetContentLength(0)
+		case "pasteof":
+			st := ctx.RequestBodyStream()
+			if st == nil {
+				return
+			}
+			got, err := io.ReadAll(st)
+			if err != nil || !bytes.Equal(got, body) {
+				mu.Lock()
+				problems = append(problems, fmt.Sprintf("body stream read to EOF gave %d bytes err=%v, sent %d", len(got), err, len(body)))
+				mu.Unlock()
+			}
+			for i := 0; i < 3; i++ {
+				var b [64]byte
+				if n, _ := st.Read(b[:]); n > 0 {
+					mu.Lock()
+					problems = append(problems, fmt.Sprintf("Read after io.EOF delivered %d more bytes (%q): bytes beyond the end of the body", n, b[:n]))
+					mu.Unlock()
+				}
+			}
 		case "timeout":
 			ctx.TimeoutError("verif timeout") // body untouched; the loop goes on with a fresh ctx
 		default:
